@@ -44,8 +44,10 @@ class ClassContract:
     """
 
     def __init__(self, name, props, file, cls, fields, spec, spec_fields, inv, methods, requires=None, witness=None,
-                 notes="", imports=None, loops=None, also=()):
+                 notes="", imports=None, loops=None, also=(), shared=None, runner=None):
         self.spec_fields = spec_fields
+        self.shared = shared or {}
+        self.runner = runner
         self.also = list(also)
         self.name = name
         self.props = props
